@@ -599,10 +599,10 @@ class Interp:
         try:
             g0 = spec.establish(self, frame, tag)
             g = spec.havoc(self, frame, g0)
-        except KeyError as e:
-            # the invariant names a local variable that no longer exists (renamed / restructured loop):
-            # the obligation is undecided, never a verdict
-            raise Unsupported(f"loop contract of {tag} refers to a local that does not exist: {e}") from None
+        except (KeyError, TypeError, AttributeError, IndexError) as e:
+            # the invariant names a local variable that no longer exists or no longer has the expected shape (renamed /
+            # restructured loop): the obligation is undecided, never a verdict
+            raise Unsupported(f"loop contract of {tag} does not fit the loop (local missing or of another shape): {type(e).__name__}: {e}") from None
         if kind == "while":
             cond = self.truth(self.eval(s.test, frame))
         else:
@@ -620,8 +620,8 @@ class Interp:
             pass
         try:
             spec.preserve(self, frame, g, tag)
-        except KeyError as e:
-            raise Unsupported(f"loop contract of {tag} refers to a local that does not exist: {e}") from None
+        except (KeyError, TypeError, AttributeError, IndexError) as e:
+            raise Unsupported(f"loop contract of {tag} does not fit the loop (local missing or of another shape): {type(e).__name__}: {e}") from None
         raise Infeasible()  # cut: the arbitrary iteration ends here
 
     def x_For(self, s, frame):
